@@ -24,6 +24,16 @@
 (*                  either  arbitrary bytes: unchanged, or some context    *)
 (*                          with non-zero ids (all the statement demands)  *)
 (*                                                                         *)
+(*  short / truncated / separator-free values (round 4): a header value   *)
+(*                given directly as TOKENS (one token per byte; every byte *)
+(*                value has exactly one token, TailTok): every PREFIX      *)
+(*                (length 0 .. full + 1) of the rendering of a documented  *)
+(*                form, with one of its last TailPos positions replaced by *)
+(*                every token, and every token string of length <= ShortLen*)
+(*                - for each header kind (b3, X-B3-TraceId / -SpanId /     *)
+(*                -Sampled, uber-trace-id).  TailOutcome = the token-level *)
+(*                contract (TokOutcomeB3 / TokOutcomeJ) of that value.     *)
+(*                                                                         *)
 (* Dev (named deviations of the unchanged tree; {} is the ideal):          *)
 (*  "b3multi-sampled-low-hex-digit": the multi-header injector writes the  *)
 (*   low hex digit of the flags byte into X-B3-Sampled, so a sampled       *)
@@ -31,7 +41,12 @@
 (***************************************************************************)
 EXTENDS Naturals, Sequences, FiniteSets, TLC, Json
 
-CONSTANTS Dev, TidC, SidC, NFlag, JRep, MaxFaults
+CONSTANTS Dev, TidC, SidC, NFlag, JRep, MaxFaults,
+          TailBases,   \* documented forms whose prefixes are explored (subset of AllTailBases)
+          TailPos,     \* how many of the last positions of a prefix are replaced by every token (0..3)
+          TailComp,    \* companions of a truncated b3 value: "none" (no X-B3-* header) / "wf" (well-formed ones)
+          ShortKinds,  \* header kinds that also get every token string of length <= ShortLen
+          ShortLen
 
 DevF11  == "b3multi-sampled-low-hex-digit"
 AllDevs == {DevF11}
@@ -40,8 +55,9 @@ Fmts == {"b3s", "b3m", "jg"}
 
 VARIABLES phase,    \* "ctx" -> "injected" -> "done"   |   "carrier" -> "xdone"
           fmt,      \* propagator: b3s / b3m (inject), b3 / jg (extract)
-          sc, car, res, devUsed
-vars == <<phase, fmt, sc, car, res, devUsed>>
+          sc, car, res, devUsed,
+          tl        \* the tail family: "tail" -> "tdone" (NoTail elsewhere)
+vars == <<phase, fmt, sc, car, res, devUsed, tl>>
 
 (* ---------------- abstract carriers ------------------------------------- *)
 DefS == [p |-> "present", tid |-> "ok32", sid |-> "ok", smp |-> "1", par |-> "none", st |-> "ok", cs |-> "lower"]
@@ -143,7 +159,8 @@ InjectCar(f, c, D) ==
 XFmt(f) == IF f = "jg" THEN "jg" ELSE "b3"
 
 (* ---------------- the state machine --------------------------------------- *)
-Init == /\ res = Rej /\ devUsed = {}
+NoTail == [h |-> "none", b |-> "none", comp |-> "none", cut |-> 0, pos |-> 0, tok |-> 0, v |-> <<>>]
+Init == /\ res = Rej /\ devUsed = {} /\ tl = NoTail
         /\ \/ phase = "ctx" /\ fmt \in Fmts /\ sc \in SCs /\ car = NoCar
            \/ /\ phase = "carrier" /\ sc = NoSC
               /\ \/ fmt = "b3" /\ car \in {[NoCar EXCEPT !.s = DefS], [NoCar EXCEPT !.m = DefM],
@@ -151,36 +168,35 @@ Init == /\ res = Rej /\ devUsed = {}
                  \/ fmt = "jg" /\ \E b \in JRep : car = [NoCar EXCEPT !.j = [DefJ EXCEPT !.fb = b]]
 
 Inject == /\ phase = "ctx" /\ phase' = "injected"
-          /\ UNCHANGED <<fmt, sc, res>>
+          /\ UNCHANGED <<fmt, sc, res, tl>>
           /\ \/ car' = InjectCar(fmt, sc, {}) /\ devUsed' = devUsed
              \/ /\ DevF11 \in Dev /\ fmt = "b3m" /\ LowDigit(sc) # Bit(sc)
                 /\ car' = InjectCar(fmt, sc, {DevF11}) /\ devUsed' = devUsed \cup {DevF11}
 ExtractRT == /\ phase = "injected" /\ phase' = "done"
              /\ res' = Outcome(XFmt(fmt), car, devUsed)
-             /\ UNCHANGED <<fmt, sc, car, devUsed>>
+             /\ UNCHANGED <<fmt, sc, car, devUsed, tl>>
 
 \* the bound on mutated dimensions (stated once more, with the canonical-form rule, as CONSTRAINT Budget)
 Room == Faults(fmt, car) < MaxFaults
 MutS(d) == /\ phase = "carrier" /\ Room /\ fmt = "b3" /\ car.s.p = "present"
            /\ car.s[d] = DefS[d]
            /\ \E v \in AltS(d) : car' = [car EXCEPT !.s[d] = v]
-           /\ UNCHANGED <<phase, fmt, sc, res, devUsed>>
+           /\ UNCHANGED <<phase, fmt, sc, res, devUsed, tl>>
 MutM(d) == /\ phase = "carrier" /\ Room /\ fmt = "b3" /\ ~MAbs(car.m)
            /\ car.m[d] = DefM[d]
            /\ \E v \in AltM(d) : car' = [car EXCEPT !.m[d] = v]
-           /\ UNCHANGED <<phase, fmt, sc, res, devUsed>>
+           /\ UNCHANGED <<phase, fmt, sc, res, devUsed, tl>>
 MutJ(d) == /\ phase = "carrier" /\ Room /\ fmt = "jg"
            /\ car.j[d] = DefJ[d]
            /\ \E v \in AltJ(d) : car' = [car EXCEPT !.j[d] = v]
-           /\ UNCHANGED <<phase, fmt, sc, res, devUsed>>
+           /\ UNCHANGED <<phase, fmt, sc, res, devUsed, tl>>
 MutSingle == \E d \in DimS : MutS(d)
 MutMulti  == \E d \in DimM : MutM(d)
 MutJaeger == \E d \in DimJ : MutJ(d)
 Extract == /\ phase = "carrier" /\ phase' = "xdone"
            /\ res' = Outcome(fmt, car, {})
-           /\ UNCHANGED <<fmt, sc, car, devUsed>>
-Next == Inject \/ ExtractRT \/ MutSingle \/ MutMulti \/ MutJaeger \/ Extract
-Spec == Init /\ [][Next]_vars
+           /\ UNCHANGED <<fmt, sc, car, devUsed, tl>>
+\* (Next: below, after the tail family)
 
 \* canonical forms only: a parent field needs a sampling field before it; a multi carrier that lost
 \* every header is the absent carrier
@@ -216,13 +232,14 @@ NothingFromNothing == (Done /\ car.s.p = "absent" /\ MAbs(car.m) /\ car.j.p = "a
 ZeroNeverInstalled == (Done /\ fmt = "jg" /\ car.j.tid \in ZeroTid /\ car.j.sid \in {"ok", "zero"} /\ WFJ([car.j EXCEPT !.tid = "ok32", !.sid = "ok", !.cs = "lower"]))
                           => res.o = "reject"
 TypeOK == /\ res.o \in {"accept", "either", "reject"} /\ devUsed \subseteq Dev
-          /\ phase \in {"ctx", "injected", "done", "carrier", "xdone"}
+          /\ phase \in {"ctx", "injected", "done", "carrier", "xdone", "tail", "tdone"}
 
 (* ---------------- the documented forms again, on token sequences ------------ *)
 \* one token per byte: 0..15 hex digit (letters lower-case), 26..31 upper-case letter A..F (value + 16),
-\* 40 '-', 41 space/tab, 43 any other byte, 44 ':'
+\* 40 '-', 41 space/tab, 42 '%', 43 any other byte, 44 ':'
 Dash == 40
 Ows == 41
+Pct == 42
 Oth == 43
 Colon == 44
 RECURSIVE SplitAt(_, _, _)
@@ -311,7 +328,7 @@ RenderJ(j) ==
       p == CASE j.par = "0" -> <<0>> [] j.par = "p16" -> Field(16, 12, 3, up) [] j.par = "empty" -> <<>> [] j.par = "nonhex" -> <<Oth>>
       f == CASE j.fl = "hex2" -> <<Up(j.fb \div 16, up), Up(j.fb % 16, up)>> [] j.fl = "hex1" -> <<1>> [] j.fl = "empty" -> <<>>
              [] j.fl = "nonhex" -> <<Oth>> [] j.fl = "long" -> <<0, 0, 1>>
-      c == IF j.st = "urlenc" THEN <<Oth, 3, 26>> ELSE <<Colon>>
+      c == IF j.st = "urlenc" THEN <<Pct, 3, 26>> ELSE <<Colon>>
       core == IF j.st = "f3" THEN t \o c \o d \o c \o f ELSE t \o c \o d \o c \o p \o c \o f
   IN Hdr(j.p = "present",
          CASE j.st = "f5" -> core \o <<Colon, 1>> [] j.st = "ws" -> <<Ows>> \o core [] OTHER -> core)
@@ -323,6 +340,96 @@ Agree == (phase \in {"carrier", "injected"} /\ InBudget) =>
                b == IF f = "jg" THEN TokOutcomeJ(RenderJ(car.j)) ELSE TokOutcomeB3(RenderB3(car))
            IN a.o = b.o /\ a.src = b.src /\ a.pad = b.pad /\ a.sampled = b.sampled
 
+(* ---------------- short / truncated / separator-free header values ----------- *)
+\* Every byte value has exactly one token: the harness expands a token to ALL byte values of its class
+\* (hex digits, '-', ':', '%': one byte each; Ows: SP, HT; Oth: the other 229 byte values).
+TailTok == (0..15) \cup (26..31) \cup {Dash, Ows, Pct, Oth, Colon}
+ASSUME PrintT(<<"TAILTOK", ToJson(TailTok)>>)
+AllTailBases == {"b3full", "b3pad", "mt", "ms", "mf", "jgfull", "jgpar0", "jgurl"}
+HdrOf(b) == CASE b \in {"b3full", "b3pad"} -> "b3" [] b \in {"jgfull", "jgpar0", "jgurl"} -> "jg" [] OTHER -> b
+\* the documented forms that are truncated (representative tokens, as rendered for Agree)
+TBase(b) == CASE b = "b3full" -> RenderS([DefS EXCEPT !.par = "p16"])                 \* tid32-sid-1-parent
+              [] b = "b3pad"  -> RenderS([DefS EXCEPT !.tid = "ok16", !.smp = "d"])   \* tid16-sid-d
+              [] b = "mt"     -> TidR("ok32", FALSE)
+              [] b = "ms"     -> SidR("ok", FALSE)
+              [] b = "mf"     -> <<1>>
+              [] b = "jgfull" -> RenderJ([DefJ EXCEPT !.par = "p16"]).v              \* tid:sid:parent:01
+              [] b = "jgpar0" -> RenderJ(DefJ).v                                     \* tid:sid:0:01
+              [] b = "jgurl"  -> RenderJ([DefJ EXCEPT !.st = "urlenc"]).v            \* tid%3Asid%3A0%3A01
+\* (a constant: TLC renders each form once)
+TBaseTab == [b \in AllTailBases |-> TBase(b)]
+\* one more byte than the form has: the full value followed by any byte is a member too
+TExtTab == [b \in AllTailBases |-> TBaseTab[b] \o <<0>>]
+TExt(b) == TExtTab[b]
+\* companions: well-formed X-B3-* headers carrying OTHER ids than the b3 value
+CompT == Field(32, 14, 9, FALSE)
+CompS == Field(16, 13, 6, FALSE)
+SeqsUpTo(S, n) == UNION {[1..k -> S] : k \in 0..n}
+CompsOf(b) == IF HdrOf(b) = "b3" THEN TailComp ELSE IF HdrOf(b) = "jg" THEN {"none"} ELSE {"wf"}
+\* prefix of length n of form b, position n - p + 1 replaced by token x (p = 0: the plain prefix)
+TailMember(b, c, n, p, x) ==
+  LET pre == SubSeq(TExt(b), 1, n) IN
+  [h |-> HdrOf(b), b |-> b, comp |-> c, cut |-> n, pos |-> p, tok |-> x,
+   v |-> IF p = 0 THEN pre ELSE [pre EXCEPT ![n - p + 1] = x]]
+ShortMember(k, w) ==
+  [h |-> k, b |-> "short", comp |-> (IF k \in {"b3", "jg"} THEN "none" ELSE "wf"), cut |-> Len(w), pos |-> 0, tok |-> 0, v |-> w]
+\* the token-level carrier of a member.  The swept header is PRESENT (an empty value is handed over as an
+\* empty value); Hdr() turns "present and empty" into "absent", which is what the contract says about it.
+TailCarB3(t) ==
+  LET wf == t.comp = "wf" IN
+  [b3 |-> IF t.h = "b3" THEN Hdr(TRUE, t.v) ELSE Hdr(FALSE, <<>>),
+   mt |-> IF t.h = "mt" THEN Hdr(TRUE, t.v) ELSE Hdr(wf, CompT),
+   ms |-> IF t.h = "ms" THEN Hdr(TRUE, t.v) ELSE Hdr(wf, CompS),
+   mf |-> IF t.h = "mf" THEN Hdr(TRUE, t.v) ELSE Hdr(wf, <<1>>)]
+TailOutcome(t) == IF t.h = "jg" THEN TokOutcomeJ(Hdr(TRUE, t.v)) ELSE TokOutcomeB3(TailCarB3(t))
+Proj(o) == [o |-> o.o, src |-> o.src, pad |-> o.pad, sampled |-> o.sampled]
+
+InitTail == /\ phase = "tail" /\ sc = NoSC /\ car = NoCar /\ res = Rej /\ devUsed = {}
+            /\ \/ \E b \in TailBases : \E c \in CompsOf(b) : \E n \in 0..Len(TExt(b)) :
+                    \/ tl = TailMember(b, c, n, 0, 0)
+                    \/ \E p \in 1..TailPos : \E x \in TailTok : p <= n /\ tl = TailMember(b, c, n, p, x)
+               \/ \E k \in ShortKinds : \E w \in SeqsUpTo(TailTok, ShortLen) : tl = ShortMember(k, w)
+            /\ fmt = (IF tl.h = "jg" THEN "jg" ELSE "b3")
+TailExtract == /\ phase = "tail" /\ phase' = "tdone"
+               /\ res' = Proj(TailOutcome(tl))
+               /\ UNCHANGED <<fmt, sc, car, devUsed, tl>>
+
+Next == Inject \/ ExtractRT \/ MutSingle \/ MutMulti \/ MutJaeger \/ Extract \/ TailExtract
+Spec == (Init \/ InitTail) /\ [][Next]_vars
+
+\* what the statement says about such values, clause by clause
+TDone == phase = "tdone"
+Sep(h) == IF h = "jg" THEN Colon ELSE Dash
+HasTok(v, x) == \E i \in 1..Len(v) : v[i] = x
+\* a context is only ever promised for lower-case hex + separators, and its ids are never all zero
+TailAcceptDocumented ==
+  (TDone /\ res.o = "accept") =>
+     LET o == TailOutcome(tl) IN
+     /\ Len(o.tid) = 32 /\ Len(o.sid) = 16 /\ ~IsZero(o.tid) /\ ~IsZero(o.sid) /\ LowerHex(o.tid) /\ LowerHex(o.sid)
+     /\ (res.src = tl.h \/ (res.src = "s" /\ tl.h = "b3") \/ (res.src = "j" /\ tl.h = "jg") \/ res.src = "m")
+     /\ (res.src \in {"s", "j"} => \A i \in 1..Len(tl.v) : tl.v[i] \in (0..15) \cup {Sep(tl.h)})
+\* a b3 / uber-trace-id value without its field separator never denotes a context of its own
+TailNoSeparator ==
+  (TDone /\ tl.h \in {"b3", "jg"} /\ ~HasTok(tl.v, Sep(tl.h)) /\ res.o = "accept") => (tl.v = <<>> /\ res.src = "m")
+\* an empty value is an absent header
+TailEmptyIsAbsent ==
+  (TDone /\ tl.v = <<>>) =>
+     CASE tl.h = "jg" -> res.o = "reject"
+       [] tl.h = "b3" -> IF tl.comp = "wf" THEN res.o = "accept" /\ res.src = "m" ELSE res.o = "reject"
+       [] tl.h = "mf" -> res.o = "accept" /\ res.src = "m" /\ ~res.sampled   \* missing sampling field
+       [] OTHER -> res.o = "either"          \* an id header missing: arbitrary
+\* the un-truncated documented forms are accepted (anchors the family to the class-level partition)
+TailAnchored ==
+  (TDone /\ tl.b \in AllTailBases /\ tl.pos = 0 /\ tl.cut = Len(TBaseTab[tl.b])) =>
+     IF tl.b = "jgurl" THEN res.o = "either"
+     ELSE /\ res.o = "accept"
+          /\ res.src = (CASE tl.h = "b3" -> "s" [] tl.h = "jg" -> "j" [] OTHER -> "m")
+          /\ res.pad = (tl.b = "b3pad") /\ res.sampled
+TailTypeOK == /\ TailBases \subseteq AllTailBases /\ TailPos \in 0..3 /\ TailComp \subseteq {"none", "wf"}
+              /\ ShortKinds \subseteq {"b3", "mt", "ms", "mf", "jg"}
+              /\ (phase \in {"tail", "tdone"}) = (tl # NoTail)
+              /\ tl # NoTail => \A i \in 1..Len(tl.v) : tl.v[i] \in TailTok
+
 (* ---------------- behaviour export ----------------------------------------- *)
 EmitAll ==
   /\ phase = "done" =>
@@ -331,4 +438,13 @@ EmitAll ==
                                dev |-> IF InjectCar(fmt, sc, AllDevs) # InjectCar(fmt, sc, {}) THEN DevF11 ELSE "",
                                extDev |-> Outcome(XFmt(fmt), InjectCar(fmt, sc, AllDevs), AllDevs)])>>)
   /\ phase = "xdone" => PrintT(<<"BEH", ToJson([k |-> "x", fmt |-> fmt, car |-> car, exp |-> res])>>)
+  \* rest: what the full form goes on with behind the cut (the bytes a truncated VIEW is followed by)
+  /\ phase = "tdone" =>
+       PrintT(<<"BEH", ToJson([k |-> "t", fmt |-> fmt,
+                               tl |-> [h |-> tl.h, b |-> tl.b, comp |-> tl.comp, cut |-> tl.cut, pos |-> tl.pos, tok |-> tl.tok],
+                               car |-> IF tl.h = "jg" THEN [j |-> [p |-> TRUE, v |-> tl.v]]
+                                       ELSE [hh \in {"b3", "mt", "ms", "mf"} |->
+                                               IF hh = tl.h THEN [p |-> TRUE, v |-> tl.v] ELSE TailCarB3(tl)[hh]],
+                               rest |-> IF tl.b \in AllTailBases THEN SubSeq(TExt(tl.b), tl.cut + 1, Len(TBaseTab[tl.b])) ELSE <<>>,
+                               exp |-> TailOutcome(tl)])>>)
 =============================================================================
